@@ -77,6 +77,10 @@ CHECKS = {
          "TLC explores all 110 592 requests (8 flags x 3 query file names incl. several dots and nested directories x placement x formatting x {valid, invalid query, missing query, broken schema}) and checks: success writes exactly one file at <dir>/<stem>.rs, failure writes nothing, exit status reflects the outcome. 70 (1500) real runs of the binary built from the working tree: exit status, exactly the expected file created and nothing else touched, content byte-identical to header + library tokens for LibraryOptions(flags) (through the same rustfmt when formatting is on), including re-generation over a longer previous output.",
          "Trusted: TLC, rustfmt as installed, the flag -> argv mapping in tools/c19.py. Output directories that do not exist are outside the statement.",
          "DESIGN.md §5 C19", "model_checking"),
+ "C20": ("TLA+ protocol model of `graphql-client introspect-schema` (Introspect.tla: argument parsing incl. header strings, output file, request, server faults) model-checked by TLC over every scenario, refuting the early-open design; a covering sample of scenarios executed with the real binary against a loopback mock endpoint with scripted faults; recorded runs validated against the specification by TLC (Trace_C20)",
+         "TLC checks on all 3456 scenarios (is-one-of x specify-by-url, bearer token, 13 header strings and pairs incl. repeated names in different case, output to file / stdout, existing file, 8 server behaviours: 200 + JSON, 200 + garbage, 404 / 500 with JSON, 400 / 503 with text, connection refused, connection closed mid-reply) that success delivers the server's JSON, failure leaves an existing file untouched, refused arguments send nothing; with OpenOutputEarly = TRUE it produces the truncation counterexample. 110 (2500) real runs: the request the mock saw (POST, exact document for the flags, matching operationName, every header name / value, bearer), exit status, stdout and file content are compared with the specification, the run log is validated by TLC, and the written file generates the same code as the served schema's SDL.",
+         "Trusted: TLC, the mock server in tools/c20.py, reqwest's framing of the request. Loopback HTTP only.",
+         "DESIGN.md §5 C20", "model_checking"),
 }
 
 
